@@ -187,9 +187,15 @@ type CallReport struct {
 }
 
 type CallerReport struct {
-	CallerPid int          `json:"caller_pid"`
-	Pgid      int          `json:"pgid"`
-	Calls     []CallReport `json:"calls"`
+	CallerPid int `json:"caller_pid"`
+	Pgid      int `json:"pgid"`
+	// SIGINT as the launchers inherit it. The caller resets an inherited SIG_IGN (a check started
+	// as a background job of a non-interactive shell has it) to SIG_DFL before the first Launch,
+	// so that the verdict does not depend on how the check was started.
+	SigintWasIgnored bool         `json:"sigint_was_ignored"`
+	SigintDefault    bool         `json:"sigint_default"` // disposition is SIG_DFL and the signal is not blocked
+	SigintNote       string       `json:"sigint_note,omitempty"`
+	Calls            []CallReport `json:"calls"`
 }
 
 func safeLaunch(name string) (pid int, err error, pan string) {
@@ -215,6 +221,22 @@ func callerMain() {
 		fmt.Fprintln(os.Stderr, "caller: bad environment")
 		os.Exit(2)
 	}
+	// Signal environment of the "original process": SIGINT with its default disposition, as in a
+	// program started normally. Ignored dispositions survive exec: a launcher that inherits
+	// SIG_IGN falls back to "ignored" (not "default") after signal.Stop, which changes what a
+	// late or repeated SIGINT does to it.
+	wasIgn, sigErr := resetIgnoredSignal(syscall.SIGINT)
+	sigNote := ""
+	if sigErr != nil {
+		sigNote = "rt_sigaction: " + sigErr.Error()
+	}
+	h, herr := sigDisposition(syscall.SIGINT)
+	blk := statusFields("/proc/self/status", "SigBlk")["SigBlk"]
+	blkMask, berr := strconv.ParseUint(blk, 16, 64)
+	sigDefault := herr == nil && berr == nil && blkMask&(1<<(uint(syscall.SIGINT)-1)) == 0 && (h == 0 || (!wasIgn && h != 1))
+	if !sigDefault {
+		sigNote += fmt.Sprintf(" disposition=%#x err=%v SigBlk=%s", h, herr, blk)
+	}
 	// fd 3 is a pipe whose write end the supervisor holds: when the supervisor dies, the
 	// whole process group of this caller (launchers and daemons included) is killed.
 	syscall.CloseOnExec(3)
@@ -229,7 +251,8 @@ func callerMain() {
 	}()
 	time.AfterFunc(callerCap, killOwnGroup)
 
-	rep := CallerReport{CallerPid: os.Getpid(), Pgid: syscall.Getpgrp(), Calls: make([]CallReport, n)}
+	rep := CallerReport{CallerPid: os.Getpid(), Pgid: syscall.Getpgrp(), Calls: make([]CallReport, n),
+		SigintWasIgnored: wasIgn, SigintDefault: sigDefault, SigintNote: strings.TrimSpace(sigNote)}
 	var clock atomic.Int64
 	var wg sync.WaitGroup
 	start := make(chan struct{})
